@@ -15,6 +15,15 @@ for f in sorted(glob.glob('/verif/evidence/*.json')): v(f,'/root/.vp/EVIDENCE.sc
 m=json.load(open('/verif/MANIFEST.json'))
 ids=[json.loads(l)['id'] for l in open('/verif/properties.jsonl')]
 claimed={c['property_id'] for c in m['checks']}; na={n['property_id'] for n in m.get('not_applicable',[])}
+import os
+for c in m['checks']:
+    ef=c['evidence_file']
+    if os.path.exists(ef):
+        lvl=json.load(open(ef)).get('level')
+        if lvl!=c['level_claimed']['category']:
+            ok=False; print("FAIL",c['property_id'],"evidence level",lvl,"!= manifest category",c['level_claimed']['category'])
+    else:
+        ok=False; print("FAIL",c['property_id'],"no evidence file",ef)
 for i in ids:
     if (i in claimed)==(i in na): ok=False; print("FAIL",i,"must be claimed xor not_applicable")
 sys.exit(0 if ok else 1)
